@@ -23,5 +23,10 @@ let () =
       (match tune2fs_edit cur es with
        | Some l -> print_endline ("OK " ^ String.concat " " (List.map (fun x -> string_of_int (int_of_n x)) l))
        | None -> print_endline "REFUSED")
+    | [m] when (match List.filter (fun s -> s <> "") (String.split_on_char ' ' m) with "M" :: _ -> true | _ -> false) ->
+      (* M <current s_default_mount_opts> <0 set | 1 negate> <mask>  -> new value *)
+      (match List.filter (fun s -> s <> "") (String.split_on_char ' ' m) with
+       | [_; c; ng; mk] -> print_endline (string_of_int (int_of_n (mnt_step (n_of_int (int_of_string c)) (ng = "1") (n_of_int (int_of_string mk)))))
+       | _ -> print_endline "?")
     | _ -> print_endline "?"
   done with End_of_file -> ()
